@@ -93,18 +93,20 @@ type Outcome struct {
 	StopInjected bool
 	SignalReturn int // event seq at which Agent.Signal returned (agent level), -1
 	// agent level
-	DataDir    string
-	LogDir     string
-	DAG        *dag.DAG
-	ReqID      string
-	LastStatus *model.Status // Agent.Status() after Run returned
-	LiveChecks int
-	LiveBad    []string
-	RunErr     string
-	Lines      []*model.Status // every status the agent wrote (agent level, RecordWrites)
-	WriteCount int
-	LateWrites int
-	LateText   []string
+	Dir          string
+	LoadedParams []string
+	DataDir      string
+	LogDir       string
+	DAG          *dag.DAG
+	ReqID        string
+	LastStatus   *model.Status // Agent.Status() after Run returned
+	LiveChecks   int
+	LiveBad      []string
+	RunErr       string
+	Lines        []*model.Status // every status the agent wrote (agent level, RecordWrites)
+	WriteCount   int
+	LateWrites   int
+	LateText     []string
 }
 
 // Executions counts RUN_ENTER events per step.
@@ -153,6 +155,7 @@ type RunOpts struct {
 	WriteDelay   time.Duration
 	RetryTarget  *model.Status
 	RetryDAG     *dag.DAG
+	Dir          string // reuse this case directory (retry of a recorded run)
 	KeepDirs     bool
 	HangBound    time.Duration
 	Quiet        bool
@@ -719,12 +722,17 @@ func Run(spec *CaseSpec, opts *RunOpts) *Outcome {
 		opts = &RunOpts{}
 	}
 	out := &Outcome{StopSeq: -1, SignalReturn: -1, StopInject: -1}
-	dir, err := os.MkdirTemp(opts.Scratch, "case-")
+	dir := opts.Dir
+	var err error
+	if dir == "" {
+		dir, err = os.MkdirTemp(opts.Scratch, "case-")
+	}
 	if err != nil {
 		out.Inconclusive = "mkdir: " + err.Error()
 		return out
 	}
-	if !opts.KeepDirs {
+	out.Dir = dir
+	if !opts.KeepDirs && opts.Dir == "" {
 		defer os.RemoveAll(dir)
 	}
 	steps, hsteps, all := buildSteps(spec, dir)
@@ -971,10 +979,16 @@ func (r *Runner) runAgent(dir string, out *Outcome, pause time.Duration, runDone
 			return "write dag: " + err.Error()
 		}
 		var err error
-		d, err = dag.Load("", file, spec.Params)
+		params := spec.Params
+		if r.opts.RetryTarget != nil {
+			// as cmd/retry.go does: reload with the recorded parameter string
+			params = r.opts.RetryTarget.Params
+		}
+		d, err = dag.Load("", file, params)
 		if err != nil {
 			return "load: " + err.Error()
 		}
+		out.LoadedParams = append([]string(nil), d.Params...)
 	}
 	d.Delay = time.Duration(spec.DelayMs) * time.Millisecond
 	if spec.TimeoutMs > 0 {
